@@ -170,6 +170,12 @@ func c12Cases(c *core.Ctx) []c12Case {
 			}
 		}
 	}
+	// output capture far above one pipe buffer (the step is alone: see capOutput)
+	for _, sz := range []int{200000, 1 << 20} {
+		for cfg := 0; cfg < 4; cfg++ {
+			out = append(out, c12Case{OutN: sz, ErrN: 1000 * cfg, Chunk: []int{0, 4096, 65536, 1000}[cfg], OutputVar: true, StdoutFile: cfg&1 != 0, StderrFile: cfg&2 != 0, Limit: 2})
+		}
+	}
 	// large and random sizes
 	r := c.Rand("c12", 0)
 	nrand := c.Pick(60, 2000)
@@ -196,8 +202,11 @@ func c12Cases(c *core.Ctx) []c12Case {
 
 // capOutput keeps a captured output below the kernel's per-string exec limit.
 func capOutput(cs *c12Case) {
-	if cs.OutputVar && cs.OutN > 100000 {
-		cs.OutN = 100000 // the captured value becomes an environment string (kernel limit 128 KiB)
+	// the captured value becomes an environment string (kernel limit 128 KiB per
+	// string): above that no further process can be started, so big captured
+	// outputs are only used when the step is alone
+	if cs.OutputVar && cs.OutN > 100000 && cs.Siblings > 0 {
+		cs.OutN = 100000
 	}
 }
 
@@ -259,6 +268,7 @@ func c12Run(c *core.Ctx, idx int, cs c12Case) {
 		return
 	}
 	c.Eval(1)
+	os.Unsetenv("VERIF_C12_MAIN") // a captured output must not leak into the next case's processes
 	for _, n := range g.Nodes() {
 		if n.Data().Step.Name != "main" {
 			continue
